@@ -8,6 +8,8 @@ ops
   openlist                        ThresholdOpenList.evaluate
   tiebreak                        ListOrderTieBreaker around Plurality / QuotaSelector(select)
   break_by_list                   core.Tie.break_by_list
+  alt_ranks                       AlternativeThresholds over stub selectors returning fixed lists (the union and its
+                                  mean-rank order on arbitrary partial results)
 """
 import math
 import itertools
@@ -19,11 +21,11 @@ ID = 'C16'
 NAMESPACE = 'VL.C16'
 LEAN_MODULES = ['VotelibProofs.Props.C16']
 GEN_MODULES = ['Quota']
-REQUIRED = ['passes_iff', 'sumVals_eq_sum', 'abs_threshold_exact', 'abs_threshold_order', 'rel_threshold_exact', 'rel_threshold_exact_pos',
+REQUIRED = ['abs_threshold_exact', 'abs_threshold_order', 'rel_threshold_exact', 'rel_threshold_exact_pos',
             'share_boundary', 'rel_threshold_zero_total', 'alternative_combine_mem', 'alternative_combine_nodup',
             'alternative_combine_sorted', 'alternative_is_union', 'alternative_error_iff', 'coalition_dispatch',
-            'coalition_error_iff', 'property_variant_none', 'property_variant_some', 'property_dispatch',
-            'sel_eval_abs', 'sel_eval_rel', 'sel_eval_prev', 'sel_alt_is_union', 'sel_coalition_dispatch',
+            'coalition_error_iff', 'property_dispatch',
+            'sel_alt_is_union', 'sel_coalition_dispatch',
             'sel_property_dispatch', 'quota_selector_exact', 'quota_selector_overflow_error',
             'quota_selector_overflow_select', 'mem_jumpers', 'jump_threshold_spec', 'openlist_no_threshold',
             'openlist_fill', 'openlist_overflow_by_votes', 'openlist_overflow_by_list', 'jumpers_nodup',
@@ -447,6 +449,21 @@ def _oracle(case, obs):
                 return [('tiebreak_members', f'list tie-break changed who is elected beyond the tie: expected {exp}, got {obs}')]
             return [('tiebreak_order', f'expected {exp}, got {obs}')]
         return []
+    if op == 'alt_ranks':
+        results = case['results']
+        if isinstance(obs, dict):
+            return [('unexpected_error', obs.get('err'))]
+        union = set(c for r in results for c in r)
+        out = []
+        if set(obs) != union:
+            out.append(('alt_union', f'expected the set {sorted(union)}, got {sorted(obs)}'))
+        if _dups(obs):
+            out.append(('duplicate', 'candidate listed twice'))
+        if not out:
+            seq = [Fraction(sum(r.index(c) if c in r else len(r) for r in results), len(results)) for c in obs]
+            if any(a > b for a, b in zip(seq, seq[1:])):
+                out.append(('alt_order', 'not ordered by mean rank in the partial selections'))
+        return out
     if op == 'break_by_list':
         el, br = case['elected'], case['breaker']
         counts = {}
@@ -604,6 +621,17 @@ def impl(case):
             res = vo.ListOrderTieBreaker(inner).evaluate(votes, case['n'], [obj(i) for i in case['list']])
             return enc_selection(res, NAMES)
         return guarded(run)
+    if op == 'alt_ranks':
+        class Fixed:
+            def __init__(self, res):
+                self.res = res
+
+            def evaluate(self, votes):
+                return list(self.res)
+        def run():
+            ev = vt.AlternativeThresholds([Fixed([obj(i) for i in r]) for r in case['results']])
+            return [NAMES.i(c) for c in ev.evaluate({})]
+        return guarded(run)
     if op == 'break_by_list':
         def run():
             el = [vcore.Tie(obj(i) for i in x['tie']) if isinstance(x, dict) else obj(x) for x in case['elected']]
@@ -613,6 +641,21 @@ def impl(case):
 
 
 def compare(case, iobs, mobs):
+    if case['op'] == 'alt_ranks':
+        # the model answers [[candidate, mean rank], ...]; equal mean ranks form groups compared as sets
+        if not isinstance(mobs, list) or not isinstance(iobs, list):
+            return f'impl={json.dumps(iobs)} model={json.dumps(mobs)}'
+        groups, pos = [], 0
+        for c, rk in mobs:
+            if groups and groups[-1][0] == rk:
+                groups[-1][1].add(c)
+            else:
+                groups.append((rk, {c}))
+        for rk, g in groups:
+            if set(iobs[pos:pos + len(g)]) != g:
+                return f'impl={json.dumps(iobs)} model={json.dumps(mobs)}'
+            pos += len(g)
+        return None if pos == len(iobs) else f'impl={json.dumps(iobs)} model={json.dumps(mobs)}'
     if canon(iobs) == canon(mobs):
         return None
     if case['op'] == 'seatless' and isinstance(iobs, list) and isinstance(mobs, list) \
@@ -643,6 +686,8 @@ def nontrivial(case, obs):
         return False
     if case['op'] == 'break_by_list':
         return any(isinstance(x, dict) for x in case['elected'])
+    if case['op'] == 'alt_ranks':
+        return len(case['results']) >= 2
     return len(case['votes']) >= 2
 
 
@@ -672,6 +717,9 @@ def _py_sel(sel):
 def describe(case):
     """the Python call of a case, as text"""
     op = case['op']
+    if op == 'alt_ranks':
+        return ('AlternativeThresholds([Fixed(r) for r in ' + repr([[f'c{i}' for i in r] for r in case['results']])
+                + ']).evaluate({})   # Fixed(r).evaluate(votes) returns r')
     if op == 'break_by_list':
         el = ', '.join(('Tie({' + ', '.join(f"'c{i}'" for i in x['tie']) + '})') if isinstance(x, dict) else f"'c{x}'"
                        for x in case['elected'])
@@ -736,6 +784,14 @@ def _sub_selectors(sel):
 
 def shrink_candidates(case):
     op = case['op']
+    if op == 'alt_ranks':
+        rs = case['results']
+        for i in range(len(rs)):
+            if len(rs) > 1:
+                c = dict(case)
+                c['results'] = rs[:i] + rs[i + 1:]
+                yield c
+        return
     if op == 'break_by_list':
         el = case['elected']
         for i in range(len(el)):
@@ -1091,6 +1147,14 @@ def gen_break(rng):
     return {'op': 'break_by_list', 'elected': el, 'breaker': breaker, '_tags': ['break_by_list']}
 
 
+def gen_alt_ranks(rng):
+    m = rng.randint(1, 7)
+    results = []
+    for _ in range(rng.randint(1, 4)):
+        results.append(rng.sample(range(m), rng.randint(0, m)))
+    return {'op': 'alt_ranks', 'results': results, '_tags': ['alternative', 'alt_ranks']}
+
+
 def gen_edge(rng):
     """empty dicts, zero totals, more seats than list members"""
     k = rng.choice(['empty', 'zero', 'long_n', 'zero_open'])
@@ -1143,6 +1207,8 @@ def _gen(rng, tier):
         yield gen_break(rng)
     for _ in range(60 * scale):
         yield gen_edge(rng)
+    for _ in range(150 * scale):
+        yield gen_alt_ranks(rng)
     # the witnesses of the two repaired defects, always
     yield {'op': 'rel_threshold', 'votes': [[0, '5'], [1, '95']], '_types': ['i', 'i'], 'threshold': '1/20', '_ttype': 'F',
            'accept_equal': True, '_tags': ['rel_boundary', 'rel_boundary_5pct']}
@@ -1275,6 +1341,8 @@ def _posthoc_tags(c):
     elif op == 'break_by_list':
         if any(isinstance(x, dict) for x in c['elected']):
             tags.append('break_tie')
+    elif op == 'alt_ranks':
+        pass
     return c
 
 
